@@ -858,6 +858,17 @@ func (env *SpecEnv) call(x SCall) SpecVal {
 		v := argv(0)
 		registerHeapKey("BigVal", ArraySort(SInt, SInt))
 		return SpecVal{T: Select(fx.Heap(env.state(), "BigVal"), v.T)}
+	case "alloc":
+		// alloc(x): x refers to an object that exists in the current state (below the allocation frontier)
+		v := argv(0)
+		ref := v.T
+		switch v.T.Sort {
+		case SIface:
+			ref = App("if.val", SInt, v.T)
+		case SSlice:
+			ref = App("sl.base", SInt, v.T)
+		}
+		return SpecVal{T: And(App("<", SBool, ref, env.state().nextRef), App(">", SBool, ref, TZero))}
 	case "store":
 		// store(m, k, v): the mathematical map m with key k bound to v
 		m, k, v := argv(0), argv(1), argv(2)
